@@ -514,6 +514,7 @@ func init() {
 		ruleFCIdentity(r)
 		ruleFCRefs(r)
 		ruleFCRemovedWrites(r)
+		ruleFCShrink(r)
 		ruleFCLocked(r)
 		ruleFCClient(r)
 	},
